@@ -12,7 +12,9 @@ must keep working.  `rebind(M, {"time": clock, ...})` therefore looks at what th
   * the conventional name itself (`M.time`), bound or not                -> the fake (what the drivers always did).
 
 What was found is remembered on the module (`__verif_rebound__`), so that the next call — the names now hold the previous
-fakes, not the real objects — replaces the same names again.  A name whose counterpart the fake does not offer is left alone
+fakes, not the real objects — replaces the same names again.  `snapshot` / `reinstate` save and put back exactly what the
+touched names held.  Drivers must NOT also assign `M.select = fake` themselves: with `from select import select` that
+would overwrite the function the code calls with a module-like object.  A name whose counterpart the fake does not offer is left alone
 (the real function keeps being used: no worse than before).  Only module-level bindings are considered; plain data
 (`from socket import MSG_WAITALL`: an int) needs no replacement and is never touched.
 """
@@ -83,11 +85,25 @@ def rebind(mod, fakes: Dict[str, Any]) -> Dict[str, Tuple[str, Any]]:
     return table
 
 
-def restore(mod, real_names) -> None:
-    """put the real objects back (for drivers that undo their rebinding)"""
-    table: Dict[str, Tuple[str, Any]] = mod.__dict__.get(_KEY, {})
-    for g, (real_name, attr) in table.items():
-        if real_name not in real_names:
-            continue
-        real = importlib.import_module(real_name)
-        setattr(mod, g, real if attr is None else getattr(real, attr))
+_ABSENT = object()
+
+
+def snapshot(mod, real_names) -> Dict[str, Any]:
+    """what every name `rebind(mod, {name: ...})` would touch holds now (to be handed to `reinstate` afterwards)"""
+    table: Dict[str, Tuple[str, Any]] = mod.__dict__.setdefault(_KEY, {})
+    done = mod.__dict__.setdefault(_KEY + "done", set())
+    for real_name in real_names:
+        if real_name not in done:
+            table.update(_discover(mod, real_name))
+            done.add(real_name)
+    names = [g for g, (rn, _) in table.items() if rn in real_names] + [rn.rsplit(".", 1)[-1] for rn in real_names]
+    return {g: mod.__dict__.get(g, _ABSENT) for g in names}
+
+
+def reinstate(mod, snap: Dict[str, Any]) -> None:
+    """undo rebind(): every name gets back exactly what `snapshot` saw (names that did not exist are removed)"""
+    for g, v in snap.items():
+        if v is _ABSENT:
+            mod.__dict__.pop(g, None)
+        else:
+            setattr(mod, g, v)
